@@ -17,6 +17,8 @@ CLAIMED = {
          "effect classification of all writers of the key member (symbolic values) + guard domination"),
  'C07': ("Exact necessary conditions of uniformity decided from the source: n! divides the product of the moduli of the independent draws of the permutation generator for n=2..64 (moduli extracted as expressions), every index derived from a draw is in range, the bounded sampler returns only draws that passed the rejection comparison with a bound k*modulo-1 (finite-domain evaluation with 64-bit wrap-around), wrappers reduce by the requested modulus, the residue sampler reduces mod m and draws >= bits(m)+64 bits. The distribution itself is not decided.", "§3 C07",
          "finite-domain evaluation of extracted expressions (factorial divisibility, range, rejection bound) + guard facts"),
+ 'C18': ("Static structural check of the oblivious-transfer senders/choosers: frozen guard inventory; exact element check; at every send site all received query elements carry their membership verdict and every pair of z-values was compared (loop nests covering all unordered pairs); every message-dependent value sent depends on randomness sampled where it is computed and different messages use disjoint randomness. Correct decryption and secrecy of the non-chosen messages are not decided.", "§3 C18",
+         "must-facts at send sites (guard-before-send), loop-nest pair coverage, randomness-freshness dependence"),
 }
 NA = {
  'C01': "algebraic identity over runtime group elements for all masking chains; no clause visible in code shape beyond what C03/C05/C08/C12 claim",
